@@ -16,6 +16,6 @@ const ReclHarness::Cfg cfgs[] = {
   CFG("geb_all_thr2_lazy_f2", geb_d, 18), CFG("geb_n2_never_none_f1", geb_e, 60),
 };
 ReclHarness h("recl_b", cfgs, sizeof(cfgs) / sizeof(cfgs[0]));
-struct Reg { Reg() { xsim::register_harness(&h); hx::register_reclaimer_probes(); } } reg;
+struct Reg { Reg() { xsim::register_harness(&h); xsim::probe_name(3, "destructor run by the reclaimer unlinked and retired a shared object"); hx::register_reclaimer_probes(); } } reg;
 } // namespace
 XSIM_MAIN()
